@@ -46,8 +46,8 @@ claim("C19",
       TRUST, "DESIGN.md §3.8, §4 C19")
 
 claim("C12",
-      "custom effect-algebra lint over adjacency mutations (converse closure), CFG pairing rules for ID pools and iterator cursors, Weighted-sibling state-update comparison, configuration sweep",
-      "The mirror-image, ID-recycling and iterator-cursor mechanisms of C12 decided for every method of the 8 map-backed graph types, uid.Set and 30 iterator types in the default and safe builds; each iterator method and its Weighted sibling make the same cursor/length updates. Histories are not explored; dense-matrix graphs, Reset, and panic atomicity are NOT decided.",
+      "custom effect-algebra lint over adjacency mutations (converse closure), CFG pairing rules for ID pools and iterator cursors, Weighted-sibling state-update comparison, CFG ordering rule panic-before-write, who-may-compare lint on the absent marker, configuration sweep",
+      "The mirror-image, ID-recycling and iterator-cursor mechanisms of C12 decided for every method of the 8 map-backed graph types, uid.Set and 30 iterator types in the default and safe builds; each iterator method and its Weighted sibling make the same cursor/length updates. In the container methods of graph/simple and graph/multi no explicit panic is reachable after a write to the graph, the dense-matrix graphs compare the absent marker only NaN-aware, and a consumed receiver-held iterator is reset before return. Histories are not explored; dense-matrix index arithmetic, Reset implementations and panics inside callees are NOT decided.",
       TRUST, "DESIGN.md §3.9, §4 C12")
 
 claim("C16",
